@@ -158,6 +158,11 @@ var mandatory = []string{"command", "env", "plugins", "matrix", "repository_url"
 
 var rec = ev.New("TestPropSignSteps", "step lists built as structs: mixtures of command, wait, input, trigger, group (nested to depth 4) and unknown steps at every position and depth, pipeline env x step env with controlled overlap, all key kinds (EdDSA, ES512, PS512, ES256 signer); success => every command step at every depth carries a verifying signature naming the key's algorithm with exactly the expected sorted field list, nothing else changed, caller env untouched; any unknown step => error; non-trivial = a command step at depth >= 2 or an unknown step at depth >= 1; distinct by hash of the step list and env")
 
+// logSink is a Logger that keeps what it is handed.
+type logSink struct{ lines []string }
+
+func (l *logSink) Debug(f string, v ...any) { l.lines = append(l.lines, fmt.Sprintf(f, v...)) }
+
 func TestPropSignSteps(t *testing.T) {
 	pool := keys.Pool()
 	ctx := context.Background()
@@ -222,6 +227,18 @@ func TestPropSignSteps(t *testing.T) {
 		}
 		if penv != nil || rapid.Bool().Draw(t, "withenvnil") {
 			opts = append(opts, signature.WithEnv(penv))
+			// the remaining options: debug signing, with and without somewhere to log to
+			debugMode := rapid.IntRange(0, 3).Draw(t, "debugsigning")
+			switch debugMode {
+			case 1:
+				opts = append(opts, signature.WithDebugSigning(true), signature.WithLogger(&logSink{}))
+				rec.Class("options:debug-signing-with-logger")
+			case 2:
+				opts = append(opts, signature.WithDebugSigning(true))
+				rec.Class("options:debug-signing-without-logger")
+			case 3:
+				opts = append(opts, signature.WithLogger(&logSink{}))
+			}
 		}
 		var err error
 		func() {
